@@ -36,6 +36,7 @@ structure SimModel (α : Type) where
   props  : List (Propensity α)
   U      : List (List Int)        -- `update_array` (columns)
   D      : List (List Int)        -- `delay_update_array` (columns)
+  R      : List (List Nat)        -- reactant multiplicities per reaction (immediate + delayed), columns
   rules  : List (Rule α)
   delays : List (DelayKind α)
   safe   : Bool                   -- `SafeModelCSimInterface`
@@ -84,7 +85,7 @@ def addScaledCol (x : List α) (amount : α) (col : List α) : List α :=
 
 /-- the interface's `compute_stochastic_propensities` / `…_volume_propensities`. -/
 def SimModel.propensities (m : SimModel α) (mode : Mode) (x p : List α) (V t : α) : List α :=
-  if m.safe then computePropensitiesSafe mode m.nSpecies m.U m.D m.props (vecGet x) (vecGet p) V t
+  if m.safe then computePropensitiesSafe mode m.nSpecies m.U m.D m.R m.props (vecGet x) (vecGet p) V t
   else computePropensities mode m.props (vecGet x) (vecGet p) V t
 
 /-- number of leading grid times `≤ t`: the `while … c_timepoints[current_index] <= current_time`
